@@ -91,7 +91,27 @@ def run_stage(ctx, only=None):
     prog_by_h = {}
     for p in progs:
         rr = [r for r in out[p["name"]] if r["op"] == "irchist"]
-        if not rr or rr[0].get("err") or rr[0].get("died"):
+        if rr and rr[0].get("died"):
+            # the complete node died while a history was running: if it died in the state machine's recover
+            # handler (a panic while applying an entry) that is C06's subject; the history cannot be judged further
+            logtxt = rr[0].get("log", "")
+            pend = {}
+            try:
+                with open(os.path.join(outdir, p["name"], "irchist.pending")) as fh:
+                    pend = json.load(fh)
+            except (OSError, ValueError):
+                pass
+            if re.search(r"statemachine\.go:\d+\] (runtime error|.*panic)|as message of death", logtxt):
+                m = re.search(r"statemachine\.go:\d+\] ([^\n]*)", logtxt)
+                res["fail"].append({"prop": "C06", "pred": "NoPanic", "h": p["steps"][0]["tag"]["h"], "i": pend.get("step", 0),
+                                    "data": pend.get("data", ""), "cmd": (pend.get("data", "").split() or [""])[0].upper(),
+                                    "t": pend.get("t", "line"), "server": False,
+                                    "detail": "the node died in FSM.Apply: %s" % (m.group(1) if m else logtxt[-200:])[:300],
+                                    "lines": "", "rids": "", "program": p, "applied": []})
+                res["died"] = res.get("died", 0) + 1
+                continue
+            raise vlib.Inconclusive("HTTP-level history %s: the node died: %s" % (p["name"], logtxt[-1500:]))
+        if not rr or rr[0].get("err"):
             raise vlib.Inconclusive("HTTP-level history %s did not complete: %s" % (p["name"], json.dumps(rr)[:1500]))
         ex = rr[0].get("extra") or {}
         res["resumed"] += ex.get("resumed", 0)
